@@ -194,14 +194,14 @@ namespace View
 
 /-- `subarray::operator=(const_subarray<T, D, ElementPtr, Layout> const&) &` 2063-2068, `operator=(subarray const&)` 2171-2176,
     `operator=(subarray&&)` 2177-2182 (trivially movable elements), `operator=(const_subarray<TT, D, As...> const&) &&` 2142-2146:
-    `BOOST_MULTI_ASSERT(this->extension() == other.extension()); this->elements() = other.elements();`
+    `BOOST_MULTI_ASSERT(this->extensions() == other.extensions()); this->elements() = other.elements();`
     (the `this == &other` shortcut of 2064/2172 returns the unchanged memory, which is also what the loop computes).
     `subarray<T, 0>` has no `elements()`: the expression does not compile (`none`). -/
 def assign (dst src : View) (m : Mem α) : Option (Mem α) :=
   match dst.lay with
   | [] => none
   | _ :: _ =>
-    if dst.ext.eqv src.ext then (ElemRange.ofView dst).assign (ElemRange.ofView src) m else none
+    if Exts.eqv dst.exts src.exts then (ElemRange.ofView dst).assign (ElemRange.ofView src) m else none
 
 /-- `template<class TT, class... As> operator=(const_subarray<TT, D, As...> const&) &` 2093-2097 (other element or pointer
     type) and the `&&` source overload 2101-2105: `BOOST_MULTI_ASSERT(other.extensions() == this->extensions()); this->elements() = other.elements();` -/
@@ -286,12 +286,12 @@ def assignRangeRows (v : View) (rows : List (List α)) (m : Mem α) : Option (Me
   | _ => none
 
 /-- `subarray::swap(subarray&&) &&` 2070-2073 (and the friend `swap` 2074):
-    `BOOST_MULTI_ASSERT(extension() == other.extension()); adl_swap_ranges(elements().begin(), elements().end(), other.elements().begin())` -/
+    `BOOST_MULTI_ASSERT(extensions() == other.extensions()); adl_swap_ranges(elements().begin(), elements().end(), other.elements().begin())` -/
 def swap (a b : View) (m : Mem α) : Option (Mem α) :=
   match a.lay with
   | [] => none
   | _ :: _ =>
-    if a.ext.eqv b.ext then do
+    if Exts.eqv a.exts b.exts then do
       let ab ← (ElemRange.ofView a).begin'
       let ae ← (ElemRange.ofView a).end'
       let bb ← (ElemRange.ofView b).begin'
